@@ -126,7 +126,7 @@ func (route *SendAllMatch) Dispatch(buf []byte) {
 		if dest.Match(name) {
 			// dest should handle this as quickly as it can
 			log.Tracef("route %s sending to dest %s: %s", route.key, dest.Key, buf)
-			dest.In <- buf
+			dest.Send(buf)
 		}
 	}
 }
@@ -140,7 +140,7 @@ func (route *SendFirstMatch) Dispatch(buf []byte) {
 		if dest.Match(name) {
 			// dest should handle this as quickly as it can
 			log.Tracef("route %s sending to dest %s: %s", route.key, dest.Key, buf)
-			dest.In <- buf
+			dest.Send(buf)
 			break
 		}
 	}
@@ -154,7 +154,7 @@ func (route *ConsistentHashing) Dispatch(buf []byte) {
 		dest := conf.Dests()[conf.Hasher.GetDestinationIndex(name)]
 		// dest should handle this as quickly as it can
 		log.Tracef("route %s sending to dest %s: %s", route.key, dest.Key, name)
-		dest.In <- buf
+		dest.Send(buf)
 	} else {
 		log.Errorf("could not parse %s", buf)
 	}
